@@ -471,6 +471,21 @@ func (kcp *KCP) update_ack(rtt int32) {
 
 // shrink_buf advances snd_una to the oldest unacknowledged segment in snd_buf.
 func (kcp *KCP) shrink_buf() {
+	// Segments at the head that parse_ack has marked are no longer in flight.
+	// Dropping them here costs no shifting, and leaving them would pin snd_una
+	// (and with it the send window) until the peer's una passes them - which
+	// never happens if that one update is lost and the peer has nothing to send.
+	count := 0
+	for seg := range kcp.snd_buf.ForEach {
+		if seg.acked == 0 {
+			break
+		}
+		count++
+	}
+	if count > 0 {
+		kcp.snd_buf.Discard(count)
+	}
+
 	if seg, ok := kcp.snd_buf.Peek(); ok {
 		kcp.snd_una = seg.sn
 	} else {
